@@ -33,6 +33,7 @@ TEnc == /\ IsEvent("Enc")
 TDec == /\ IsEvent("Dec")
         /\ DecodeAllowed(E.mode, IF E.len > 0 THEN E.sb ELSE 0, E.len, E.res, E.after)
         /\ E.rest_ok                                 \* the bytes that remain are the untouched suffix
+        /\ E.ctx_ok                                  \* the outcome does not depend on what follows the frame in the buffer
 THdr == /\ IsEvent("Hdr")
         /\ \A i \in 1..Len(E.seen) : DecodeAllowed(E.mode, E.sb, E.len, E.seen[i].res, E.seen[i].after)
 TNext == TEnc \/ TDec \/ THdr
